@@ -3,6 +3,7 @@ import Sylvia.Model.EntryPoints
 import Sylvia.Model.Strip
 import Sylvia.Model.Dispatch
 import Sylvia.Model.Runtime
+import Sylvia.Model.Reply
 /-! Driver operations over the current program. -/
 namespace Driver
 open Sylvia Gen
@@ -187,6 +188,155 @@ def opIntoResp (rest : String) : String :=
     | .error .customEmpty => "err Generic error: Custom Empty message should not be sent"
     | .error .unknownVariant => "err unknown-variant"
 
+-- ------------------------------------------------------------------------------------------------
+-- replies
+-- ------------------------------------------------------------------------------------------------
+def hexOfBytes (bs : List Nat) : String :=
+  String.ofList ((bs.flatMap fun b => [Json.hexDigit (b / 16), Json.hexDigit (b % 16)]).map Char.toLower)
+
+def hexOfString (s : String) : String := hexOfBytes (Gen.bytesOf s)
+
+def tyEqText (a b : Ty) : Bool := Gen.tyRender a == Gen.tyRender b
+
+def replyTbl (st : State) : List Reply.Entry × List Reply.Diag :=
+  Reply.replyTable Extracted.replyDataFromLater tyEqText st.contract.methods
+
+def opRids (st : State) : String :=
+  let tbl := (replyTbl st).1
+  ",".intercalate ((List.range tbl.length).zip tbl |>.map fun (i, e) => e.id ++ "=" ++ toString i)
+
+def hexOpt (s : String) : Option String := if s == "-" then none else some ((if s.startsWith "x" then (s.drop 1).toString else s))
+
+def envOf (spec : String) : Reply.Envelope :=
+  match spec.splitOn ":" with
+  | ["E", "exec", i] => .exec (hexOpt i)
+  | ["E", "inst", a, i] => .inst (utf8OfHex a) (hexOpt i)
+  | _ => .bad
+
+/-- decode the payload bytes for the entry's payload parameters; `none` = the payload does not parse -/
+def payloadArgs (pay : List Arg) (payloadHex : String) : Option (List (String × Json)) :=
+  match pay with
+  | [a] =>
+    if a.payloadRaw then some [(a.name, .str ("x" ++ payloadHex))]
+    else
+      match parseJsonPrefix (utf8OfHex payloadHex) with
+      | some (d, false) => (Serde.decodeVal false (Gen.fieldSpec a).ty d).map fun v => [(a.name, v)]
+      | _ => none
+  | _ =>
+    match parseJsonPrefix (utf8OfHex payloadHex) with
+    | some (.arr vs, false) =>
+      if vs.length != pay.length then none else
+      (pay.zip vs).mapM fun (a, v) => (Serde.decodeVal false (Gen.fieldSpec a).ty v).map fun v' => (a.name, v')
+    | _ => none
+
+def hexOrNone (o : Option String) : String := o.getD "none"
+
+def showSub : Reply.SubResult → String
+  | .ok ev d m => "result:ok:" ++ toString ev ++ ":" ++ hexOrNone d ++ ":" ++ toString m
+  | .err t => "result:err:" ++ t
+
+/-- text of the first argument as the echo handler prints it; `none` = the JSON inside the envelope does not fit the data type -/
+def showFirst (dataTy : Option Ty) : Reply.FirstArg → Option String
+  | .none => some "-"
+  | .rawOpt d => some ("rawopt:" ++ hexOrNone d)
+  | .raw d => some ("raw:" ++ d)
+  | .instOpt none => some "instopt:none"
+  | .instOpt (some (a, i)) => some ("instopt:" ++ a ++ ":" ++ hexOrNone i)
+  | .inst a i => some ("inst:" ++ a ++ ":" ++ hexOrNone i)
+  | .typedOpt none => some "null"
+  | .typedOpt (some j) | .typed j =>
+    match dataTy, parseJsonPrefix (utf8OfHex j) with
+    | some t, some (d, false) =>
+      let inner := match t with | .path (.cons "Option" (.cons i .nil) .nil) => i | x => x
+      ((Gen.vtyOf inner).bind fun vt => Serde.decodeVal false vt d).map (·.render)
+    | _, _ => none
+  | .errorText t => some ("error:" ++ t)
+  | .fullResult r => some (showSub r)
+
+def methodByName (st : State) (fn : Name) : Option Method := st.contract.methods.find? (·.name == fn)
+
+def showReplyOutcome (st : State) (e? : Option Reply.Entry) (c : Dispatch.CtxIn) : Reply.Outcome → String
+  | .unknownId i => "err unknown-id " ++ toString i
+  | .missingData => "err missing"
+  | .badEnvelope => "err envelope"
+  | .badPayload => "err payload"
+  | .passErr t => "err pass:" ++ t
+  | .passOk ev d => "ok  events=" ++ toString ev ++ " data=" ++ (d.getD "-") ++ " stored="
+  | .call fn gas ev msgr first payload =>
+    match e? with
+    | none => "internal"
+    | some e =>
+      -- values are decoded with the entry's payload types and bound positionally to the called method's own parameters
+      let own := match methodByName st fn with
+        | some m => (if e.payload.length < m.args.length then m.args.drop (m.args.length - e.payload.length) else m.args).map (·.name)
+        | none => []
+      match (payloadArgs e.payload payload).map (fun as => (as.zip own).map fun (p, n) => (n, p.2)) with
+      | none => "err payload"
+      | some args =>
+        match showFirst (e.data.map (·.ty)) first with
+        | none => "err json"
+        | some f =>
+          let hid := "ct." ++ Casing.toString fn
+          if c.fail == hid then
+            let m := methodByName st fn
+            "err " ++ Dispatch.failText st.contract.error.isSome ((m.map fun m => Dispatch.retErrTy m.ret).getD .std) hid
+          else
+            "ok ran=" ++ hid ++ "|first=" ++ f ++ "|args=" ++ (Json.obj args).render ++ "|height=" ++ c.height
+              ++ "|addr=" ++ Dispatch.mockContractAddr ++ "|seed=" ++ c.seed ++ "|gas=" ++ toString gas
+              ++ "|events=" ++ toString ev ++ "|msgr=" ++ toString msgr ++ " events=0 data=- stored=" ++ hid
+
+def opReply (st : State) (rest : String) : String :=
+  match rest.splitOn " " with
+  | [id, gas, okerr, nev, data, nmsgr, errhex, payload, envspec, fail, height, seed] =>
+    let tbl := (replyTbl st).1
+    let result : Reply.SubResult := if okerr == "ok" then .ok nev.toNat! (hexOpt data) nmsgr.toNat! else .err (utf8OfHex errhex)
+    let r : Reply.ReplyIn := { id := id.toNat!, payload := (hexOpt payload).getD "", gasUsed := gas.toNat!, result := result }
+    let c : Dispatch.CtxIn := { sender := "s", funds := "0", height := height, seed := seed, fail := fail }
+    let pok := match tbl[r.id]? with | some e => (payloadArgs e.payload r.payload).isSome | none => true
+    showReplyOutcome st tbl[r.id]? c (Reply.dispatchReply Extracted.dataGuards tbl r (envOf envspec) pok)
+  | _ => "bad-op"
+
+def showTrigger : ReplyOn → String | .always => "Always" | .success => "Success" | .error => "Error"
+
+/-- payload bytes (hex) a builder produces for canonical argument values -/
+def encodePayload (pay : List Arg) (vals : List Json) : Option String :=
+  match pay, vals with
+  | [a], [v] =>
+    if a.payloadRaw then (match v with | .str s => some ((if s.startsWith "x" then (s.drop 1).toString else s)) | _ => none)
+    else (Serde.decodeVal false (Gen.fieldSpec a).ty v).map fun c => hexOfString c.render
+  | _, _ =>
+    if pay.length != vals.length then none else
+    ((pay.zip vals).mapM fun (a, v) => Serde.decodeVal false (Gen.fieldSpec a).ty v).map fun cs => hexOfString (Json.arr cs).render
+
+def opSubmsg (st : State) (rest : String) : String :=
+  match splitN rest 3 with
+  | [entry, recv, json] =>
+    let tbl := (replyTbl st).1
+    match tbl[entry.toNat!]?, parseJson json with
+    | some e, some (.arr vals) =>
+      match encodePayload e.payload vals with
+      | some p => "id=" ++ toString entry.toNat! ++ " reply_on=" ++ showTrigger (Reply.cwReplyOn e) ++ " gas=" ++ (if recv == "sub" then "77" else "none")
+          ++ " payload=" ++ p ++ " msg_same=true"
+      | none => "bad-args"
+    | _, _ => "bad-op"
+  | _ => "bad-op"
+
+def opRt (st : State) (rest : String) : String :=
+  match splitN rest 7 with
+  | [entry, _recv, okerr, gas, height, seed, json] =>
+    let tbl := (replyTbl st).1
+    match tbl[entry.toNat!]?, parseJson json with
+    | some e, some (.arr vals) =>
+      match encodePayload e.payload vals with
+      | some p =>
+        let result : Reply.SubResult := if okerr == "ok" then .ok 2 none 1 else .err "boom"
+        let r : Reply.ReplyIn := { id := entry.toNat!, payload := p, gasUsed := gas.toNat!, result := result }
+        let c : Dispatch.CtxIn := { sender := "s", funds := "0", height := height, seed := seed, fail := "-" }
+        showReplyOutcome st (some e) c (Reply.dispatchReply Extracted.dataGuards tbl r (.bad) true)
+      | none => "bad-args"
+    | _, _ => "bad-op"
+  | _ => "bad-op"
+
 def step (st : State) (line : String) : State × Option String :=
   let (op, rest) := splitOp line
   match op with
@@ -201,6 +351,10 @@ def step (st : State) (line : String) : State × Option String :=
   | "reset" => ({}, some "ok")
   | "ep" => (st, some (opEp st))
   | "strip" => (st, some (opStrip rest))
+  | "rids" => (st, some (opRids st))
+  | "reply" => (st, some (opReply st rest))
+  | "submsg" => (st, some (opSubmsg st rest))
+  | "rt" => (st, some (opRt st rest))
   | "remote" => (st, some (opRemote rest))
   | "remote-de" => (st, some (opRemoteDe rest))
   | "intoresp" => (st, some (opIntoResp rest))
